@@ -168,6 +168,7 @@ func goroutineNow() time.Time {
 type safeRand struct {
 	mu sync.Mutex
 	r  *rand.Rand
+	n  int // sextet alphabet size: 0 / 62 = alphanumeric only; 63 adds '+'; 64 adds '/' as well
 }
 
 func (s *safeRand) Read(p []byte) (int, error) {
@@ -175,9 +176,13 @@ func (s *safeRand) Read(p []byte) (int, error) {
 	defer s.mu.Unlock()
 	var acc uint32
 	bits := 0
+	n := s.n
+	if n == 0 {
+		n = 62
+	}
 	for i := range p {
 		for bits < 8 {
-			acc = acc<<6 | uint32(s.r.Intn(62))
+			acc = acc<<6 | uint32(s.r.Intn(n))
 			bits += 6
 		}
 		p[i] = byte(acc >> (bits - 8))
